@@ -12,7 +12,7 @@ from symlas.stubs import SymFile
 from symlas.values import SymStr, SymInt, B, concat, fresh_int, fresh_bool
 from checks.common import Layout, blank_or_tab
 
-SPELLINGS = ["1", "2.5", "-3", ".5", "5.", "1e2", "-9", "7.25", "0", "-0.5", "12", "3.0"]
+SPELLINGS = ["1", "2.5", "2.5e-3", ".5", "5.", "1e2", "-9", "7.25", "0", "-0.5", "1.25E-02", "3.0", "-3", "4E+1"]
 AFTER = {"last": [], "P": ["~Parameter", "BHT.C 35 : t"], "O": ["~Other", "some text"], "X": ["~Xtra", "KEY. val : k"]}
 
 
